@@ -378,4 +378,34 @@ theorem select_strict {α : Type} [LinearOrder α] (cum : List α) (u : α) (i :
     simpa using firstLe_strict u cum 0 i hj
   · simp at h
 
+/-! ### the Bernoulli(exp(-γ)) coin of PermuteAndFlip: an OPEN finding of the code, as a theorem about the faithful model
+
+`bernoulli_neg_exp` tests `rng.random() <= gamma / counter`.  For `γ = 0` the coin is certain (`exp(-0) = 1`), and it does
+come up 1 for every stream whose first uniform is positive — but the uniform 0.0 passes `0 <= 0 / 1`, the counter becomes
+2 and the coin comes up 0.  In `PermuteAndFlip` the certain (top-utility) candidate is then discarded; with a single
+candidate nothing is left and `randomise` raises RuntimeError (known finding
+`C12:bernoulli_neg_exp:zero-uniform-at-certain-coin`). -/
+
+/-- the full statement (false for the code as it is): the certain coin comes up 1 on every non-empty stream -/
+def certain_coin_full : Prop := ∀ (u : ℝ) (us : List ℝ), 0 ≤ u → bernoulliNegExp 0 (u :: us) = some (true, us)
+
+/-- proved part: for a POSITIVE first uniform the certain coin comes up 1 (and consumes exactly one draw) -/
+theorem certain_coin_partial (u : ℝ) (us : List ℝ) (h : 0 < u) : bernoulliNegExp 0 (u :: us) = some (true, us) := by
+  rw [bern_le_one 0 _ (by norm_num)]
+  simp [coinLoop, not_le.mpr h]
+
+/-- the counter-example: on the stream `[0, 7/10]` the certain coin comes up 0 -/
+theorem certain_coin_zero_uniform_cex : bernoulliNegExp (0 : ℝ) [0, 7 / 10] = some (false, []) := by
+  rw [bern_le_one 0 _ (by norm_num)]
+  norm_num [coinLoop]
+
+theorem certain_coin_full_false : ¬ certain_coin_full := by
+  intro h
+  have := h 0 [7 / 10] (le_refl _)
+  rw [certain_coin_zero_uniform_cex] at this
+  simp at this
+
+/-- and PermuteAndFlip with one candidate whose coin came up 0 has nothing to return (`RuntimeError`) -/
+theorem paf_zero_uniform_cex : pfLoop [0] [(0, false)] = none := by decide
+
 end DPL.C12
